@@ -30,7 +30,7 @@ def jobs(tier, seed):
         for wn in ((1,) if q else (0, 1)):
             J.append(dict(entry="h_create", args=[ver, wn, 2 if q else 3], budget=200 if q else 1500, stubs=st))
         for sk in (0, 1):
-            J.append(dict(entry="h_setget", args=[ver, sk, 1], budget=150 if q else 900, stubs=st))
+            J.append(dict(entry="h_setget", args=[ver, sk, 1, 1 if q else 2], budget=200 if q else 1500, stubs=st))
     for ver in (SSE, FO4, FO76):
         J.append(dict(entry="h_quant", args=[ver], budget=150, stubs=st))
     return J
